@@ -878,9 +878,28 @@ func execConcurrent(n *Node, sc *Scenario) *Violation {
 		if !freeRun {
 			simrt.AttachScheduler(func(int) { est++ })
 		}
+		soloSpare := map[string]uint64{}
+		spareSlots(reflect.ValueOf(*f), "File", soloSpare, 0)
 		refs[i] = runTask(ts, f, text)
 		simrt.DetachScheduler()
 		simrt.SetMapOrder(simrt.OrderNative, 0)
+		// the memory behind the File's slices beyond their lengths is the caller's too (another
+		// File may share the backing array): a call that stores into it has written outside
+		// its input, alone or not
+		afterSpare := map[string]uint64{}
+		spareSlots(reflect.ValueOf(*f), "File", afterSpare, 0)
+		var touched []string
+		for k, h := range soloSpare {
+			if afterSpare[k] != h {
+				touched = append(touched, k)
+			}
+		}
+		if len(touched) > 0 {
+			sort.Strings(touched)
+			return free(&Violation{Class: "input-mutated", Signature: "input-mutated|spare-capacity|" + ts.Op,
+				Detail: fmt.Sprintf("%s stored into the spare capacity of the slices of the File it was given (%d slots, e.g. %s): a File that shares the backing array sees its records overwritten", ts.Op, len(touched), touched[0]),
+				Facts:  map[string]string{"op": ts.Op, "phase": "solo"}})
+		}
 		if refs[i].Panic != "" {
 			return &Violation{Class: "panic", Signature: "panic|solo|" + ts.Op, Detail: clipStr(refs[i].Panic, 300)}
 		}
